@@ -36,7 +36,7 @@ def rand_net4(r, lens=(8, 12, 16, 20, 24, 28, 30, 32)):
 def gen_knobs(r):
     return {"set_key": "%08x" % r.getrandbits(32), "rand_seed": r.getrandbits(32), "urandom_key": r.getrandbits(32),
             "clock": 1_500_000_000 + r.getrandbits(28), "pid": r.randint(2, 60000),
-            "host": r.choice(["rtr-lab-1", "build42", "localhost", "anon-box"]), "sched_key": "%08x" % r.getrandbits(32), "cli_style": r.choice([0, 0, 1, 2, 3, 4, 5, 7]),
+            "host": r.choice(["rtr-lab-1", "build42", "localhost", "anon-box"]), "sched_key": "%08x" % r.getrandbits(32), "cli_style": r.choice([0, 0, 1, 2, 3, 4, 5, 7, 8, 9, 12, 15]),
             "log_level": r.choice([None, None, None, "DEBUG", "DEBUG", "WARNING"]),
             "tmp_same_fs": r.choice([False, False, True]),
             "cwd": r.choice(["/home/alice/configs", "/srv/netconan/work", "/", "/tmp/x y"]),
